@@ -60,6 +60,7 @@ type rCfg struct {
 	CancelUs    int64  `json:"cancel_us"` // 0 = never cancelled
 	SetupFail   bool   `json:"setup_fail"`
 	SetupMode   string `json:"setup_mode"`
+	SetupUs     int64  `json:"setup_us"`      // setup sleeps this long
 	StopDelayUs int64  `json:"stop_delay_us"` // the hook parks the pool's stop goroutine this long at tp.stop.flagged
 	PoolOnly    bool   `json:"pool_only"`     // cooperative pool schedules: no Run.Do around the pool
 	Light       bool   `json:"light"`         // contention runs: bodies only record their id lock-free; no end/cleanup events
@@ -313,6 +314,9 @@ func runOne(c *ctx, rc rCase, m *metrics.Metrics) rTrace {
 			rec.add(rEv{K: "setup", A: 0, C: rec.us()})
 			failWith(t, rc.cfg.SetupMode)
 			return func(*f1testing.T) { rec.add(rEv{K: "start", A: -1, B: -1, C: rec.us()}) } // must never run
+		}
+		if rc.cfg.SetupUs > 0 {
+			time.Sleep(time.Duration(rc.cfg.SetupUs) * time.Microsecond)
 		}
 		rec.add(rEv{K: "setup", A: 1, C: rec.us()})
 		if rc.cfg.Light {
@@ -634,6 +638,32 @@ func buildCases(c *ctx) []rCase {
 		rc.cfg.StopDelayUs = 60 * ms
 		add(rc)
 	}
+	// cancellation while setup is still running: nothing may be requested afterwards
+	{
+		rc := constantCase("cancel-during-setup", "5/10ms", 10*ms, 3, 0, 3000*ms, "none")
+		rc.cfg.CancelUs = 50 * ms
+		rc.cfg.SetupUs = 300 * ms
+		add(rc)
+		ru := rCase{cfg: rCfg{Name: "cancel-during-setup-users", Mode: "users", Conc: 3, MaxDurUs: 3000 * ms, CancelUs: 50 * ms, SetupUs: 300 * ms},
+			build: func(func(api.RateFunction) api.RateFunction) (*api.Trigger, error) {
+				return users.Rate().New(users.Rate().Flags)
+			}, bodyMaxUs: 1000}
+		add(ru)
+	}
+	// a pool that takes longer than the tick interval to start (many workers, short interval)
+	{
+		rc := constantCase("slow-pool-start", "1/2ms", 2*ms, 3000, 0, 80*ms, "none")
+		add(rc)
+	}
+	// a profile that is zero in the middle: zero-rate ticks are requests too (they supersede pending work)
+	add(rCase{cfg: rCfg{Name: "staged-zero-middle", Mode: "staged", RateMode: true, Conc: 1, MaxDurUs: 2000 * ms, IntervalUs: 20 * ms, Args: "0s:6,60ms:0,80ms:0,100ms:6"},
+		build: func(w func(api.RateFunction) api.RateFunction) (*api.Trigger, error) {
+			r, err := staged.CalculateStagedRate(0, 20*time.Millisecond, "0s:6,60ms:0,80ms:0,100ms:6", "none", nil)
+			if err != nil {
+				return nil, err
+			}
+			return rateTrigger(r, w), nil
+		}, bodyMaxUs: 30000})
 	// staged / ramp / gaussian
 	add(rCase{cfg: rCfg{Name: "staged", Mode: "staged", RateMode: true, Conc: 6, MaxDurUs: 2000 * ms, IntervalUs: 20 * ms, Args: "0s:4,150ms:10,150ms:0"},
 		build: func(w func(api.RateFunction) api.RateFunction) (*api.Trigger, error) {
